@@ -121,7 +121,32 @@ CLAIMS = {
         "note": "A literal NUL inside a quoted string is counted as zero columns (accepted residual). Genuine defect repaired by fix: commit a69b444.",
         "technique": "MIR expression patterns (closures followed), field read census, forward-use analysis",
     },
+    "C01": {
+        "text": "Structural decision of the panic/termination shape: census of every explicit panic site (panic!/unreachable!/assert!, unwrap/expect, Index::index, bounds/div asserts) reachable from the five entry points; each is discharged on the current source by a guard idiom (infeasible boolean skeleton by truth table, closed literal table, total parser, variant established by the selecting predicate, enumerate index of the same slice, infallible String writer, input-independent table initialiser, option paired with its flag, index below an established length of the same vector, find() offset) or is a reviewed assumption with its reason; every call-graph cycle has a shrinking-length or structural variant, no loop/while/unbounded iterator; the pom grammars cannot spin (no nullable operand under repeat/list).",
+        "design_ref": "DESIGN.md section 4 C01",
+        "note": "Not decided: stack depth, polynomial time, NaN-freedom, panics inside dependencies, OOM. A new panic site guarded by an idiom the checker does not know is reported (accepted limitation).",
+        "technique": "MIR panic-site census with idiom discharge (control dependence, expression patterns, truth tables), Tarjan SCCs for recursion variants, grammar nullability analysis",
+    },
+    "C05": {
+        "text": "Attribute clause only: the rect emitted for an endorsed group spans min..max over both bound points of all fragments, is unfilled, dashed iff any fragment is dashed, rounded radius taken from an arc of the group; an endorsed group becomes FragmentSpan(group cells, rect); the rect element maps x,y,width,height,rx and the class flags from the fields.",
+        "design_ref": "DESIGN.md section 4 C05",
+        "note": "NOT decided: recognition soundness/completeness (is_rect / is_rounded_rect on merged float geometry) — the core of C05, including the ladder case.",
+        "technique": "MIR expression patterns with closure following",
+    },
+    "C06": {
+        "text": "Structural decision of translation plumbing: all four catalogue lookups compare the localised span and all four accepted fragments are re-offset by bounds().0; cell fragments are placed at their own cell; per fragment type every positional field of absolute_position is the same field translated by the cell and nothing else depends on the cell; enum/struct dispatch is complete; the cell translation primitives have the exact top-left +/- point shape (and fold correctly); Span::localize subtracts its own top-left.",
+        "design_ref": "DESIGN.md section 4 C06",
+        "note": "Float effects of the geometric predicates at large offsets are not decided.",
+        "technique": "MIR expression patterns + constant folding + sibling-branch cross-check",
+    },
+    "C10": {
+        "text": "Structural decision of span isolation: spans are consumed only by span.endorse(); Span::endorse takes only the span and nothing reachable from it (tables excluded) receives a CellBuffer or Settings; spans are the merge_recursive fixpoint of one span per cell under |dx|<=1 && |dy|<=1 adjacency; the cross-span pass cannot write geometry (FragmentTree.fragment written only by new, enclose* write css_tag/enclosing only); per-span results are never merged across spans.",
+        "design_ref": "DESIGN.md section 4 C10",
+        "note": "Relies on C07 (immutable tables) and C12.M1 (canvas). Float equality effects inside one span are not decided.",
+        "technique": "call-graph reachability with parameter-type census, field write census, MIR expression patterns, syntax pattern for the adjacency predicate",
+    },
 }
 
-NOT_APPLICABLE = {p: _PENDING for p in
-                  ["C01", "C05", "C06", "C10"]}
+NOT_APPLICABLE = {}
+_UNUSED = {p: _PENDING for p in
+                  []}
